@@ -59,10 +59,12 @@ impl UpdateGenerator for MarkdownUpdateGenerator {
             match token {
                 MarkdownToken::Line(_, line) => updated.push_str(&line.assure_newline()),
                 MarkdownToken::DocumentConfig(config) => {
-                    let config = config.join_newline();
                     updated.push_str("---\n");
-                    updated.push_str(&config);
-                    updated.push_str("\n---\n");
+                    if !config.is_empty() {
+                        updated.push_str(&config.join_newline());
+                        updated.push('\n');
+                    }
+                    updated.push_str("---\n");
                 }
                 MarkdownToken::VerbatimCodeBlock {
                     starting_line_number: _,
